@@ -569,6 +569,29 @@ pub fn pairs(a: &Args) -> Report {
         format!("first puncture of {x} refused"), json!({"history":[x]}));
       continue;
     }
+    // the caller's output buffer is an argument too: for every buffer length the OUTCOME of
+    // evaluating an unpunctured input (bytes, an error, or a refusal by panic) is what it was on the
+    // fresh key — in particular for the sibling leaf, which is now retained as a full-length node
+    for n in [0usize, 1, 16, 31, 33, 64] {
+      for z in [(x as u8) ^ 0x80, (x as u8) ^ 1, (x as u8) ^ 0x40, (x as u8).wrapping_add(1)] {
+        let outcome = |g: &GGM| -> String {
+          let mut out = vec![0u8; n];
+          match guard(|| g.eval(&[z], &mut out)) {
+            Guard::Done(Ok(())) => format!("value:{out:?}"),
+            Guard::Done(Err(_)) => "error".into(),
+            Guard::Panic(_) => "refused-by-panic".into(),
+          }
+        };
+        rep.evaluations += 2;
+        let (before, after) = (outcome(&g0), outcome(&g1));
+        if before != after {
+          rep.violation("C10", "GGM::eval", "pairs:value-changed-for-buffer-length",
+            format!("input {z} evaluated into a {n}-byte buffer: {} before puncturing {x}, {} after",
+              &before[..before.len().min(40)], &after[..after.len().min(40)]),
+            json!({"history": [x], "x": z, "buffer_len": n}));
+        }
+      }
+    }
     for y in ((x + seed) % stride..256).step_by(stride) {
       let mut g2 = g1.clone();
       let r = guard(|| g2.puncture(&[y as u8]));
